@@ -122,6 +122,14 @@ def check(sc, r):
                 out.append(C.v("status-elements", "C21/optional-element-lost/%s/ErrorComment" % op, "ErrorComment %r from the handler's status dataset arrived as %r" % (comment, x["comment"])))
             if offending and not x["offending"]:
                 out.append(C.v("status-elements", "C21/optional-element-lost/%s/OffendingElement" % op, "OffendingElement from the handler's status dataset is missing in the response"))
+    # a C-FIND response carries an Identifier only when it is a Pending response: the handler's results for every
+    # other status have no dataset (documented), so nothing - in particular not the previous match - may follow them
+    if op == "find":
+        for x in infos:
+            if x["status"] is not None and not S.is_pending(x["status"]) and x["ds_len"]:
+                out.append(C.v("dataset", "C21/non-pending-response-with-dataset/find/0x%04x" % x["status"],
+                               "C-FIND response with status 0x%04X carries a %d byte data set" % (x["status"], x["ds_len"])))
+                break
     # datasets the handler supplied must reach the requestor unchanged
     ys = r.obs.get("yielded") or []
     if op == "find" and sc["beh"].get("items") and sc["beh"]["items"][0]["ds"] == "ds":
